@@ -694,6 +694,16 @@ def install(mods):
             return p
 
         ddmin.ddmin_passes = ddmin_passes
+        orig_apply_mut = ddmin._apply_mutator
+
+        def _apply_mutator(mutator, exprs, max_depth=None):
+            # one application of one mutator by strategy ddmin (a "round" of
+            # the strategy is one sweep over its pass lists)
+            emit('ddmin_apply', mutator=type(mutator).__name__,
+                 stage=1 if max_depth is not None else 2)
+            return orig_apply_mut(mutator, exprs, max_depth)
+
+        ddmin._apply_mutator = _apply_mutator
         orig_get_passes = hier.get_passes
 
         def get_passes():
